@@ -48,6 +48,12 @@ type Options struct {
 	MaxExecs int           // cap on executions (0 = none)
 	Budget   time.Duration // wall-clock cap (0 = none)
 	Horizon  int
+	// TolerateND: a replayed prefix that meets a different enabled set than
+	// when it was recorded (Go map iteration order or a select with several
+	// ready cases inside the code under test: nondeterminism the scheduler
+	// cannot own) is counted and explored as it came, instead of aborting.
+	// The exploration is then reported as not exhaustive.
+	TolerateND bool
 }
 
 // Stats is what an exploration covered.
@@ -59,6 +65,7 @@ type Stats struct {
 	ByPreempt  map[int]int
 	Capped     string
 	Bound      int
+	Diverged   int
 }
 
 type result struct {
@@ -68,9 +75,13 @@ type result struct {
 	findings []Finding
 	runErr   error
 	panics   []string
+	capped   bool
+	clamped  bool
 }
 
-func runOnce(t *testing.T, sc Scenario, prefix []int, expect [][]string, horizon int) (res *result, internal error) {
+// onFatal is called inside the bubble when the execution cannot be torn down
+// (deadlock, or a panic that may have left a lock held): it must not return.
+func runOnce(t *testing.T, sc Scenario, prefix []int, expect [][]string, horizon int, onFatal func(*result), tolerateND bool) (res *result, internal error) {
 	res = &result{}
 	synctest.Test(t, func(t *testing.T) {
 		s := sched.New()
@@ -78,6 +89,9 @@ func runOnce(t *testing.T, sc Scenario, prefix []int, expect [][]string, horizon
 			s.Horizon = horizon
 		}
 		ex := sc(t)
+		// let every goroutine the constructors spawned reach its blocking
+		// point in pass-through mode, so the managed set is deterministic
+		synctest.Wait()
 		names := make([]string, 0, len(ex.Threads))
 		for n := range ex.Threads {
 			names = append(names, n)
@@ -98,12 +112,17 @@ func runOnce(t *testing.T, sc Scenario, prefix []int, expect [][]string, horizon
 		}
 		res.runErr = s.Run(synctest.Wait, func(i, n int) int {
 			if i < len(prefix) {
+				if prefix[i] >= n && tolerateND {
+					res.clamped = true
+					return 0
+				}
 				return prefix[i]
 			}
 			return 0
 		})
 		res.steps = s.Steps
 		res.trace = s.Trace()
+		res.capped = s.Capped
 		// divergence check against what was recorded when this prefix was generated
 		for i := 0; i < len(expect) && i < len(res.steps); i++ {
 			if strings.Join(expect[i], ",") != strings.Join(res.steps[i].Enabled, ",") {
@@ -112,9 +131,21 @@ func runOnce(t *testing.T, sc Scenario, prefix []int, expect [][]string, horizon
 			}
 		}
 		if s.Deadlock {
-			// Goroutines are stuck on real mutexes: the bubble could never
-			// end. Report from here; the caller exits the process.
+			// Goroutines are stuck: the bubble could never end. Report from
+			// here and leave the process.
 			res.outcome = "DEADLOCK"
+			if onFatal != nil {
+				onFatal(res)
+			}
+			return
+		}
+		if len(res.panics) > 0 {
+			// the panicking call may have left a lock held: running After or
+			// Teardown on this instance could hang forever
+			res.outcome = "PANIC"
+			if onFatal != nil {
+				onFatal(res)
+			}
 			return
 		}
 		s.Deactivate()
@@ -139,13 +170,11 @@ func trimStack(b []byte) string {
 func Explore(t *testing.T, R *ev.Run, sec *ev.Section, name string, sc Scenario, opt Options) Stats {
 	st := Stats{Outcomes: map[string]int{}, ByPreempt: map[int]int{}, Bound: opt.Bound}
 	start := time.Now()
+	fatal := func(x *result) { reportFatal(R, sec, name, x, &st) }
 	// determinism guard: the default schedule twice
-	a, e1 := runOnce(t, sc, nil, nil, opt.Horizon)
-	if a.outcome == "DEADLOCK" {
-		reportDeadlock(R, name, a)
-	}
-	b, e2 := runOnce(t, sc, nil, nil, opt.Horizon)
-	if e1 != nil || e2 != nil || fmt.Sprint(a.trace) != fmt.Sprint(b.trace) || a.outcome != b.outcome {
+	a, e1 := runOnce(t, sc, nil, nil, opt.Horizon, fatal, opt.TolerateND)
+	b, e2 := runOnce(t, sc, nil, nil, opt.Horizon, fatal, opt.TolerateND)
+	if !opt.TolerateND && (e1 != nil || e2 != nil || fmt.Sprint(a.trace) != fmt.Sprint(b.trace) || a.outcome != b.outcome) {
 		R.Broken("%s: the default schedule is not reproducible (trace or outcome differ between two runs): nondeterminism not owned by the scheduler\nA=%v\nB=%v", name, a.trace, b.trace)
 		return st
 	}
@@ -165,10 +194,13 @@ func Explore(t *testing.T, R *ev.Run, sec *ev.Section, name string, sc Scenario,
 			st.Capped = fmt.Sprintf("time budget %s", opt.Budget)
 			break
 		}
-		x, ierr := runOnce(t, sc, it.prefix, it.expect, opt.Horizon)
+		x, ierr := runOnce(t, sc, it.prefix, it.expect, opt.Horizon, fatal, opt.TolerateND)
 		if ierr != nil {
-			R.Broken("%s: %v (prefix %v)", name, ierr, it.prefix)
-			return st
+			if !opt.TolerateND {
+				R.Broken("%s: %v (prefix %v)", name, ierr, it.prefix)
+				return st
+			}
+			st.Diverged++
 		}
 		st.Executions++
 		st.Points += int64(len(x.steps))
@@ -190,19 +222,16 @@ func Explore(t *testing.T, R *ev.Run, sec *ev.Section, name string, sc Scenario,
 		st.Outcomes[x.outcome]++
 		R.Eval(sec, name+"|"+x.outcome, true)
 		R.Transitions(int64(len(x.steps)))
-		if x.outcome == "DEADLOCK" {
-			reportDeadlock(R, name, x)
-		}
-		for _, p := range x.panics {
-			x.findings = append(x.findings, Finding{Key: "panic", Detail: p})
-		}
-		if x.runErr != nil && x.outcome != "DEADLOCK" {
+		if x.capped {
 			x.findings = append(x.findings, Finding{Key: "livelock", Detail: x.runErr.Error()})
+		} else if x.runErr != nil && x.outcome != "DEADLOCK" {
+			R.Broken("%s: %v (prefix %v)", name, x.runErr, it.prefix)
+			return st
 		}
 		for _, f := range x.findings {
 			R.Violation(R.ID+"|"+name+"|"+f.Key, map[string]interface{}{
 				"scenario": name, "choices": choices, "schedule": x.trace, "outcome": x.outcome, "finding": f.Detail,
-				"replay": fmt.Sprintf("VERIF_REPLAY_SCENARIO=%s VERIF_REPLAY_CHOICES=%s ./vcheck %s", name, joinInts(choices), R.ID),
+				"replay": fmt.Sprintf("VERIF_SCENARIO=%s VERIF_REPLAY_CHOICES=%s ./vcheck %s", name, joinInts(choices), R.ID),
 			})
 		}
 		if st.Executions <= 2 {
@@ -228,25 +257,67 @@ func Explore(t *testing.T, R *ev.Run, sec *ev.Section, name string, sc Scenario,
 			}
 		}
 	}
+	if st.Diverged > 0 {
+		R.NotExhaustive(fmt.Sprintf("%s: %d replays diverged (map iteration / select nondeterminism inside the code under test)", name, st.Diverged))
+		sec.Exhaustive = false
+	}
 	if st.Capped != "" {
 		R.NotExhaustive(name + ": " + st.Capped)
 		sec.Exhaustive = false
 		sec.CapHit = st.Capped
 	}
 	sec.Bounds[name] = map[string]interface{}{"preemption_bound": opt.Bound, "executions": st.Executions, "scheduling_points": st.Points,
-		"max_depth": st.MaxDepth, "distinct_outcomes": len(st.Outcomes), "by_preemptions": st.ByPreempt, "outcomes": st.Outcomes}
+		"max_depth": st.MaxDepth, "distinct_outcomes": len(st.Outcomes), "by_preemptions": st.ByPreempt, "outcomes": st.Outcomes, "diverged_replays": st.Diverged}
 	R.States(sec, int64(len(st.Outcomes)))
 	return st
 }
 
-func reportDeadlock(R *ev.Run, name string, x *result) {
+func reportFatal(R *ev.Run, sec *ev.Section, name string, x *result, st *Stats) {
 	choices := make([]int, len(x.steps))
 	for i, s := range x.steps {
 		choices[i] = s.Choice
 	}
-	R.Violation(R.ID+"|"+name+"|deadlock", map[string]interface{}{"scenario": name, "choices": choices, "schedule": x.trace, "error": fmt.Sprint(x.runErr)})
-	// goroutines are blocked on real mutexes; nothing more can run in this process
+	R.Eval(sec, name+"|"+x.outcome, true)
+	R.Transitions(int64(len(x.steps)))
+	R.States(sec, 1)
+	detail := map[string]interface{}{"scenario": name, "choices": choices, "schedule": x.trace,
+		"replay": fmt.Sprintf("VERIF_SCENARIO=%s VERIF_REPLAY_CHOICES=%s ./vcheck %s", name, joinInts(choices), R.ID)}
+	if x.outcome == "DEADLOCK" {
+		detail["error"] = fmt.Sprint(x.runErr)
+		R.Violation(R.ID+"|"+name+"|deadlock", detail)
+	} else {
+		detail["panics"] = x.panics
+		R.Violation(R.ID+"|"+name+"|panic:"+panicSite(x.panics[0]), detail)
+	}
+	sec.Bounds[name] = map[string]interface{}{"executions_before_fatal": st.Executions, "ended_by": x.outcome}
+	fmt.Printf("E1 %-28s ended by %s after %d executions\n", name, x.outcome, st.Executions)
+	R.NotExhaustive(name + ": exploration ended at the first " + strings.ToLower(x.outcome) + " (the instance cannot be torn down)")
+	if ev.ChildUnit() != "" {
+		os.Exit(R.SavePartial())
+	}
 	os.Exit(R.Finish())
+}
+
+// panicSite extracts "message-class @innermost repository function".
+func panicSite(p string) string {
+	lines := strings.Split(p, "\n")
+	msg := lines[0]
+	if i := strings.Index(msg, "panicked: "); i >= 0 {
+		msg = msg[i+len("panicked: "):]
+	}
+	if i := strings.Index(msg, "["); i > 0 {
+		msg = strings.TrimSpace(msg[:i])
+	}
+	for _, l := range lines[1:] {
+		l = strings.TrimSpace(l)
+		if strings.HasPrefix(l, "github.com/ipfs/ipfs-cluster") && !strings.Contains(l, "verifshim") {
+			if i := strings.LastIndex(l, "("); i > 0 {
+				l = l[:i]
+			}
+			return msg + " @" + strings.TrimPrefix(l, "github.com/ipfs/ipfs-cluster")
+		}
+	}
+	return msg
 }
 
 func joinInts(a []int) string {
@@ -259,9 +330,17 @@ func joinInts(a []int) string {
 
 // Replay runs one recorded schedule and returns its outcome and findings.
 func Replay(t *testing.T, sc Scenario, choices []int) (string, []Finding, []string) {
-	x, _ := runOnce(t, sc, choices, nil, 0)
-	for _, p := range x.panics {
-		x.findings = append(x.findings, Finding{Key: "panic", Detail: p})
-	}
-	return x.outcome, x.findings, x.trace
+	var out *result
+	x, _ := runOnce(t, sc, choices, nil, 0, func(r *result) {
+		fmt.Println("REPLAY ended by", r.outcome)
+		for _, l := range r.trace {
+			fmt.Println("  ", l)
+		}
+		for _, p := range r.panics {
+			fmt.Println(p)
+		}
+		os.Exit(1)
+	}, true)
+	out = x
+	return out.outcome, out.findings, out.trace
 }
